@@ -32,10 +32,7 @@ def close_rules(ck, C):
         return None
     cl = cl[0]
     K = f.const_value("sources::ping::eventfd::INCREMENT_CLOSE")
-    rets = []
-    for i, j, st in cl.statements():
-        if st["s"] == "assign" and st["pl"]["l"] == 0 and st["rv"]["r"] == "agg" and st["rv"].get("variant") == "Ok" and not cl.is_cleanup(i):
-            rets.append((i, T.agg_variant(cl, st["rv"]["fields"][0])))
+    rets = T.ok_returns(cl)
     rm = [i for i, v in rets if v == {("sources::PostAction", "Remove")}]
     other = [i for i, v in rets if v != {("sources::PostAction", "Remove")}]
     # the close flag: Ne(BitAnd(counter, m_close), 0) / Eq
@@ -122,7 +119,7 @@ def run(ck):
     for b in f.bodies.values():
         for cs in T.calls(b, name="send_ping"):
             v = T.const_value(b, cs.args[1])
-            src = cs.args[1].get("k", {}).get("const_path", "")
+            src = T.const_name(b, cs.args[1])
             kind = "close" if v == K else ("ping" if v == P else "other")
             writers[kind].add(b.qual)
     ck.verdict(writers["close"] == {"<FlagOnDrop as Drop>::drop"}, "2", "T7-who-may-write", "<FlagOnDrop as Drop>::drop", "close-marker-writer", "the close marker is written only by FlagOnDrop::drop", "the close marker is written by %s (it must be written exactly once, by the drop of the last handle)" % sorted(writers["close"]), site="src/sources/ping/eventfd.rs")
@@ -177,15 +174,26 @@ def run(ck):
         ok = False
         if wr:
             ok_e, err_e, _ = T.result_split(sp, wr[0].bb)
-            oks = [i for i, j, st in sp.statements() if st["s"] == "assign" and st["pl"]["l"] == 0 and st["rv"]["r"] == "agg" and st["rv"].get("variant") == "Ok"]
-            for i in oks:
-                if err_e and T.reachable_only_via(sp, i, err_e):
-                    # guarded by a comparison against EAGAIN (11; stored negated in rustix' linux_raw backend)
-                    for sw, blk in enumerate(sp.blocks):
-                        if blk["term"]["t"] == "switch" and any(v in (11, 65525, 0xFFFFFFF5) for v, _ in blk["term"]["targets"]):
+            oks = [i for i, j, st in sp.statements() if st["s"] == "assign" and st["pl"]["l"] in T.ret_locals(sp) and st["rv"]["r"] == "agg" and st["rv"].get("variant") == "Ok"]
+            # from the Err edge of write(), the arm selected by the comparison against EAGAIN (11; stored negated in
+            # rustix' linux_raw backend) reaches a `return Ok` (the arm may be shared with the success arm: `Ok(_) |
+            # Err(AGAIN) => Ok(())`)
+            after_err = sp.reachable([x for _, x in err_e]) if err_e else set()
+            for sw in sorted(after_err):
+                blk = sp.blocks[sw]
+                if blk["term"]["t"] == "switch":
+                    for v, tgt in blk["term"]["targets"]:
+                        if v in (11, 65525, 0xFFFFFFF5) and any(i in sp.reachable([tgt]) for i in oks):
                             ok = True
-                    for c in T.calls(sp, name=("eq", "ne")):
-                        ok = ok or any("AGAIN" in (a.get("k", {}).get("s", "")) for a in c.args)
+            for c in T.calls(sp, name=("eq", "ne")):
+                if c.bb in after_err and any("AGAIN" in (a.get("k", {}).get("s", "")) for a in c.args):
+                    e, tr, fa = (None, [], [])
+                    sws = [x for x, mode in sp.switches_on_call(c.bb)]
+                    for x in sws:
+                        e, tr, fa = sp.bool_edges(x)
+                        arm = tr if c.name == "eq" else fa
+                        if any(i in sp.reachable(arm) for i in oks):
+                            ok = True
         ck.verdict(ok, "4", "T12-error-discipline", sp, "EAGAIN=>Ok", "a saturated counter (EAGAIN) is reported as success: earlier writes will wake the loop", "send_ping reports EAGAIN as an error", site=sp.where())
     # ---- clause 5: level-triggered READ -----------------------------------------------------------------------------
     mk = ck.opt_body("sources::ping::eventfd::make_ping")
@@ -195,7 +203,7 @@ def run(ck):
         gn = T.calls(mk, name=("new", "new_with_error"), path="Generic")
         ck.floor("5", "make_ping: Generic::new", len(gn), 1)
         for c in gn:
-            interest = c.args[1].get("k", {}).get("const_path", c.args[1].get("k", {}).get("s", ""))
+            interest = T.const_name(mk, c.args[1])
             mode = T.agg_variant(mk, c.args[2])
             ck.verdict(interest.endswith("Interest::READ") and mode == {("sys::Mode", "Level")}, "5", "T6-provenance", mk, "eventfd-registered:READ+Level", "the eventfd is registered for READ, level-triggered (an undrained counter keeps being reported)", "the ping eventfd is registered with %s / %s instead of READ / Level: a wake-up whose event is dropped (e.g. by an error exit of the batch) is never reported again" % (interest, sorted(mode)), site=mk.where(c.bb))
         fl_ = T.calls(mk, name="eventfd")
